@@ -161,6 +161,9 @@ func (r *renderer) mulRender(s Sort, a string, alo, ahi *big.Int, b string, blo,
 	if s == SInt && r.nia {
 		return fmt.Sprintf("(* %s %s)", a, b), nil, nil
 	}
+	if r.nia && modulusOf(s) != nil {
+		return fmt.Sprintf("(mod (* %s %s) %s)", a, b, modulusOf(s).String()), big0, new(big.Int).Sub(modulusOf(s), big1)
+	}
 	name := "fmul" + ringSuffix(s)
 	r.declare(name, fmt.Sprintf("(declare-fun %s (Int Int) Int)", name))
 	if a > b {
